@@ -172,20 +172,24 @@ Fixpoint nf_lookup (c : chain) (n : N) : option entry :=
 
 Definition rsec_tr (r : rsec) : trailer := snd (rsec_revision r).
 
-Lemma existsb_ext_local {A} (f : A -> bool) : forall l, existsb (fun x => negb (negb (f x))) l = existsb f l.
-Proof. induction l as [|x l IH]; cbn [existsb]; [reflexivity|]. rewrite negb_involutive, IH. reflexivity. Qed.
-
-Lemma filter_all_true {A} (f : A -> bool) : forall l, existsb (fun x => negb (f x)) l = false -> filter f l = l.
+Lemma has_key_alookup l n : has_key l n = match alookup l n with Some _ => true | None => false end.
 Proof.
-  induction l as [|x l IH]; cbn [existsb filter]; [reflexivity|]. intros H.
-  apply orb_false_iff in H as [Hx Hl]. apply negb_false_iff in Hx. rewrite Hx, IH by exact Hl. reflexivity.
+  induction l as [|[k e] l IH]; cbn; [reflexivity|].
+  destruct (N.eqb k n); [reflexivity|exact IH].
 Qed.
 
-Lemma hybrid_entries_no_hidden tab stm :
-  existsb (hidden_marker stm) tab = false -> hybrid_entries tab stm = tab ++ stm.
+(* in a hybrid section the entry of the stream wins *)
+Lemma alookup_hybrid tab stm n :
+  alookup (hybrid_entries tab stm) n = orelse (alookup stm n) (alookup tab n).
 Proof.
-  intros H. unfold hybrid_entries. rewrite filter_all_true; [reflexivity|].
-  rewrite <- H. apply existsb_ext_local.
+  unfold hybrid_entries. rewrite alookup_app.
+  induction tab as [|[k e] tab IH]; cbn [filter alookup fst].
+  - destruct (alookup stm n); reflexivity.
+  - destruct (has_key stm k) eqn:Hk; cbn [negb].
+    + rewrite IH. destruct (N.eqb_spec k n) as [->|Hne]; [|reflexivity].
+      rewrite has_key_alookup in Hk. destruct (alookup stm n); [reflexivity|discriminate].
+    + cbn [alookup]. destruct (N.eqb_spec k n) as [->|Hne]; [|exact IH].
+      rewrite has_key_alookup in Hk. destruct (alookup stm n); [discriminate|]. reflexivity.
 Qed.
 
 (* the effect of one section *)
@@ -196,13 +200,12 @@ Lemma read_section_rsec lay pre r rest seen m size :
   (forall o, In o (rsec_offsets r) -> ~ In o seen) ->
   rsec_wf size r = true ->
   (prev_of rest = None -> oldest_ok r = true) ->
-  rsec_hides r = false ->
   exists m' seen',
-    read_section true lay (rsec_off r) (rsec_off r :: seen) m = Ok (m', seen', rsec_tr r, prev_of rest)
+    read_section true true lay (rsec_off r) (rsec_off r :: seen) m = Ok (m', seen', rsec_tr r, prev_of rest)
     /\ (forall n, xlookup m' n = orelse (xlookup m n) (alookup (fst (rsec_revision r)) n))
     /\ (forall o, In o seen' -> In o seen \/ In o (rsec_offsets r)).
 Proof.
-  intros -> Hpre Hnd Hseen Hwf Hg Hhid.
+  intros -> Hpre Hnd Hseen Hwf Hg.
   unfold read_section. rewrite sec_at_app.
   unfold rsec_wf in Hwf. apply andb_true_iff in Hwf as [Hwf Hents]. apply andb_true_iff in Hwf as [_ _].
   destruct r as [o subs tr|o subs tr|o subs so ssubs tr]; cbn [rsec_off rsec_offsets rsec_layout rsec_revision fst snd rsec_tr] in *.
@@ -230,11 +233,11 @@ Proof.
     cbn [sec_at]. rewrite Hne, Z.eqb_refl. cbn [s_subs].
     apply andb_true_iff in Hents as [_ Hs].
     eexists _, _. split; [reflexivity|]. split.
-    + intros n. cbn [rsec_hides] in Hhid. rewrite (hybrid_entries_no_hidden _ _ Hhid).
-      rewrite apply_stm_subs_lookup by exact Hs.
+    + intros n. rewrite alookup_hybrid.
       rewrite apply_table_subs_lookup
         by (destruct (prev_of rest); [discriminate|]; intros _; apply negb_true_iff, Hg; reflexivity).
-      rewrite alookup_app. apply orelse_assoc.
+      rewrite apply_stm_subs_lookup by exact Hs.
+      apply orelse_assoc.
     + intros x [<-|[<-|Hx]]; [right; right; left; reflexivity|right; left; reflexivity|left; exact Hx].
 Qed.
 
@@ -259,16 +262,14 @@ Lemma read_loop_chain size : forall (c : chain) lay pre seen m tr fuel,
   (forall o, In o (flat_map rsec_offsets c) -> ~ In o seen) ->
   forallb (rsec_wf size) c = true ->
   last_ok c = true ->
-  existsb rsec_hides c = false ->
   (length c <= fuel)%nat ->
   exists m',
-    read_loop true fuel lay size (start_of c) seen m tr =
+    read_loop true true fuel lay size (start_of c) seen m tr =
       Ok (m', match tr with Some t => t | None => keep_trailer (rsec_tr (hd (RTable 0 [] []) c)) end)
     /\ forall n, xlookup m' n = orelse (xlookup m n) (nf_lookup c n).
 Proof.
-  induction c as [|r rest IH]; intros lay pre seen m tr fuel Hne Hlay Hpre Hnd Hseen Hwf Hg Hhid Hfuel; [congruence|].
-  cbn [layout_of flat_map forallb existsb length start_of hd nf_lookup] in *.
-  apply orb_false_iff in Hhid as [Hhr Hhrest].
+  induction c as [|r rest IH]; intros lay pre seen m tr fuel Hne Hlay Hpre Hnd Hseen Hwf Hg Hfuel; [congruence|].
+  cbn [layout_of flat_map forallb length start_of hd nf_lookup] in *.
   destruct fuel as [|fuel]; [lia|].
   apply andb_true_iff in Hwf as [Hwr Hwrest].
   assert (Hgr : prev_of rest = None -> oldest_ok r = true).
@@ -285,7 +286,7 @@ Proof.
   { intros o Ho. apply Hpre, in_or_app. auto. }
   assert (A3 : forall o, In o (rsec_offsets r) -> ~ In o seen).
   { intros o Ho. apply Hseen, in_or_app. auto. }
-  destruct (read_section_rsec lay pre r rest seen m size A1 A2 Hndr A3 Hwr Hgr Hhr) as (m1 & seen1 & Hrs & Hm1 & Hseen1).
+  destruct (read_section_rsec lay pre r rest seen m size A1 A2 Hndr A3 Hwr Hgr) as (m1 & seen1 & Hrs & Hm1 & Hseen1).
   rewrite Hrs.
   destruct rest as [|r2 rest2].
   - cbn [prev_of nf_lookup]. eexists. split.
@@ -311,7 +312,7 @@ Proof.
     assert (B5 : r2 :: rest2 <> []) by discriminate.
     destruct (IH lay (pre ++ rsec_layout r (Some (rsec_off r2))) seen1 m1
                  (match tr with Some _ => tr | None => Some (keep_trailer (rsec_tr r)) end) fuel
-                 B5 B1 B2 Hndrest B3 Hwrest (Hgrest B5) Hhrest B4) as (m2 & Hloop & Hm2).
+                 B5 B1 B2 Hndrest B3 Hwrest (Hgrest B5) B4) as (m2 & Hloop & Hm2).
     cbn [start_of] in Hloop. rewrite Hloop.
     eexists. split.
     + destruct tr; reflexivity.
@@ -381,13 +382,12 @@ Qed.
 
 (* ---------- main lemmas ---------- *)
 Lemma impl_read_refines size c :
-  wf_chain size c = true -> no_hidden c = true ->
+  wf_chain size c = true ->
   exists m,
     impl_read (layout_of c) size (start_of c) = Ok (m, spec_trailer (history_of c))
     /\ forall n, xlookup m n = spec_resolve (history_of c) n.
 Proof.
-  intros Hwf Hhid. destruct (wf_chain_parts _ _ Hwf) as (Hne & Hsec & Hnd & Hrev & Hg).
-  unfold no_hidden in Hhid. apply negb_true_iff in Hhid.
+  intros Hwf. destruct (wf_chain_parts _ _ Hwf) as (Hne & Hsec & Hnd & Hrev & Hg).
   unfold impl_read, impl_read_v.
   assert (Hstart : prev_ok size (start_of c) = true).
   { destruct c as [|r rest]; [congruence|]. cbn [start_of forallb] in *.
@@ -517,11 +517,10 @@ Lemma spec_trailer_newest r rest :
   spec_trailer (history_of (r :: rest)) = keep_trailer (snd (rsec_revision r)).
 Proof. unfold spec_trailer, history_of. rewrite rev_involutive. reflexivity. Qed.
 
-(* ---------- hidden objects of hybrid files: the reader as it is NOW ---------- *)
-(* the statement without the no_hidden guard, kept visible: false of the faithful model *)
-Definition resolve_refines_statement : Prop :=
+(* ---------- hidden objects of hybrid files: the reader BEFORE fix F39 (documentation) ---------- *)
+Definition resolve_refines_pre_F39_statement : Prop :=
   forall size c, wf_chain size c = true ->
-    exists m, impl_read (layout_of c) size (start_of c) = Ok (m, spec_trailer (history_of c))
+    exists m, impl_read_pre_F39 (layout_of c) size (start_of c) = Ok (m, spec_trailer (history_of c))
               /\ forall n, xlookup m n = spec_resolve (history_of c) n.
 
 (* one hybrid section: the table lists objects 0..3, marking 2 and 3 free (hidden); the stream
@@ -536,19 +535,21 @@ Definition hidden_chain : chain :=
 
 Lemma hidden_refutes :
   wf_chain 1000 hidden_chain = true /\ no_hidden hidden_chain = false /\
-  exists m t, impl_read (layout_of hidden_chain) 1000 (start_of hidden_chain) = Ok (m, t)
-    /\ xlookup m 3 = Some (Free 0)
-    /\ spec_resolve (history_of hidden_chain) 3 = Some (InStm 2 0)
-    /\ get_entry m 3 0 = ANull
-    /\ spec_answer (history_of hidden_chain) 3 0 = AIn 2 0.
+  spec_resolve (history_of hidden_chain) 3 = Some (InStm 2 0) /\
+  spec_answer (history_of hidden_chain) 3 0 = AIn 2 0 /\
+  (exists m t, impl_read_pre_F39 (layout_of hidden_chain) 1000 (start_of hidden_chain) = Ok (m, t)
+    /\ xlookup m 3 = Some (Free 0) /\ get_entry m 3 0 = ANull) /\
+  (exists m t, impl_read (layout_of hidden_chain) 1000 (start_of hidden_chain) = Ok (m, t)
+    /\ xlookup m 3 = Some (InStm 2 0) /\ get_entry m 3 0 = AIn 2 0).
 Proof.
   split; [vm_compute; reflexivity|]. split; [vm_compute; reflexivity|].
-  eexists _, _. split; [vm_compute; reflexivity|]. repeat split; vm_compute; reflexivity.
+  split; [vm_compute; reflexivity|]. split; [vm_compute; reflexivity|].
+  split; eexists _, _; (split; [vm_compute; reflexivity|split; vm_compute; reflexivity]).
 Qed.
 
-Lemma resolve_refines_false : ~ resolve_refines_statement.
+Lemma resolve_refines_pre_F39_false : ~ resolve_refines_pre_F39_statement.
 Proof.
-  intros H. destruct hidden_refutes as (Hwf & _ & m & t & Hr & Hm & Hs & _).
+  intros H. destruct hidden_refutes as (Hwf & _ & Hs & _ & (m & t & Hr & Hm & _) & _).
   destruct (H 1000%Z hidden_chain Hwf) as (m' & Hr' & Hm').
   rewrite Hr in Hr'. inversion Hr'; subst m'.
   specialize (Hm' 3%N). rewrite Hm, Hs in Hm'. discriminate.
